@@ -853,6 +853,31 @@ def gen_sanitize_shape(cmp_: ast.AST) -> str:
             f"def sanitizeNegInf : Rat := {val(kw['neginf'])}\n")
 
 
+
+def gen_make_constraint(cons: ast.AST) -> str:
+    """`constraints._make_constraint`: how `lhs ⋈ rhs` is normalised to `expr ⋈ 0` (the operand conversions
+    and the one subtraction).  Whitelisted shape only."""
+    fn = find_func(cons, "_make_constraint")
+    body = [st for st in fn.body if not (isinstance(st, ast.Expr) and isinstance(st.value, ast.Constant))
+            and not isinstance(st, ast.ImportFrom)]
+    if len(body) != 3:
+        raise TranslateError(f"_make_constraint: {len(body)} statements, expected 3: {[_u(x)[:50] for x in body]}")
+    a, b, c = body
+    if not (isinstance(a, ast.If) and not a.orelse and _u(a.test) == "isinstance(rhs, (int, float))"
+            and [_u(x) for x in a.body] == ["rhs = Constant(rhs)"]):
+        raise TranslateError(f"_make_constraint: Python-number branch {_u(a)[:80]!r}")
+    if not (isinstance(b, ast.If) and _u(b.test) == "isinstance(rhs, Expression)" and len(b.body) == 1 and len(b.orelse) == 1
+            and isinstance(b.body[0], ast.Assign) and isinstance(b.orelse[0], ast.Assign)
+            and _u(b.body[0].targets[0]) == "expr" and _u(b.orelse[0].targets[0]) == "expr"):
+        raise TranslateError(f"_make_constraint: normalisation branch {_u(b)[:100]!r}")
+    if not (isinstance(c, ast.Return)):
+        raise TranslateError("_make_constraint: last statement is not a return")
+    rows = [("python-number", "rhs = Constant(rhs)"), ("expression", "expr = " + _u(b.body[0].value)),
+            ("other", "expr = " + _u(b.orelse[0].value)), ("return", _u(c.value))]
+    return ("def glueMakeConstraint : List (String × String) := [" +
+            ", ".join(f"({json.dumps(k)}, {json.dumps(v)})" for k, v in rows) + "]\n")
+
+
 HEADER = """/-
   GENERATED by harness/gen_tables.py from the optyx sources — do not edit.
   Regenerated before every build; the theorems that mention these definitions are
@@ -893,7 +918,7 @@ def main(repo: str, outdir: str, dry: bool = False) -> int:
 
     def f_glue():
         return (HEADER + "namespace Optyx.Generated\n\n" + gen_solver_glue(src("solvers/scipy_solver.py"))
-                + "\nend Optyx.Generated\n")
+                + gen_make_constraint(src("constraints.py")) + "\nend Optyx.Generated\n")
 
     changed, errors, h = False, {}, hashlib.sha256()
     for fname, make in (("GradRules", f_rules), ("Tables", f_tables), ("Closures", f_closures), ("SolverGlue", f_glue),
